@@ -21,15 +21,15 @@ var switchOptions = []string{"report", "failonerr", "lax", "collapse", "acceptin
 	"allownonbasepath", "skipdrive", "skiptrailingslash", "skipequals"}
 
 var argOptions = map[string][]string{
-	"prehost":   {"trim", "identity", "empty", "gsb", "semantic"},
-	"posthost":  {"trim", "identity", "empty"},
-	"special":   {"gopher", "nofile", "empty", "onlyfile"},
+	"prehost":   {"trim", "identity", "reads", "empty", "gsb", "semantic"},
+	"posthost":  {"trim", "identity", "reads", "empty"},
+	"special":   {"gopher", "nofile", "empty", "onlyfile", "long"},
 	"encoding":  {"latin1", "win1252"},
-	"pathset":   {"lax", "c0", "pct", "tilde"},
-	"queryset":  {"lax", "c0", "pct", "tilde"},
-	"squeryset": {"lax", "c0", "pct", "tilde"},
-	"fragset":   {"lax", "c0", "pct", "tilde"},
-	"sfragset":  {"lax", "c0", "pct", "tilde"},
+	"pathset":   {"lax", "c0", "pct", "tilde", "delims"},
+	"queryset":  {"lax", "c0", "pct", "tilde", "delims"},
+	"squeryset": {"lax", "c0", "pct", "tilde", "delims"},
+	"fragset":   {"lax", "c0", "pct", "tilde", "delims"},
+	"sfragset":  {"lax", "c0", "pct", "tilde", "delims"},
 }
 
 var argOptionNames = func() []string {
@@ -57,6 +57,9 @@ func encodeSetArg(arg string) *url.PercentEncodeSet {
 		return url.PathPercentEncodeSet.Set('%')
 	case "tilde":
 		return url.QueryPercentEncodeSet.Set('~', 'x')
+	case "delims":
+		// characters that mean something elsewhere in the parser (drive letters, dot segments, delimiters)
+		return url.PathPercentEncodeSet.Set(':', '|', '.', '@', '=', '&', '+', ';', '!', '$', '\'', '*')
 	}
 	return url.PathPercentEncodeSet
 }
@@ -69,6 +72,9 @@ func specialArg(arg string) map[string]string {
 		return map[string]string{"ftp": "21", "http": "80", "https": "443", "ws": "80", "wss": "443"}
 	case "onlyfile":
 		return map[string]string{"file": ""}
+	case "long":
+		// names shorter and longer than any standard special scheme, with every legal kind of character
+		return map[string]string{"ftp": "21", "file": "", "http": "80", "https": "443", "ws": "80", "wss": "443", "x": "1", "postgres": "5432", "a-very.long+scheme-name9": "65535"}
 	case "http8080":
 		return map[string]string{"ftp": "21", "file": "", "http": "8080", "https": "443", "ws": "80", "wss": "443", "gopher": "7070"}
 	}
@@ -81,6 +87,16 @@ func hostFuncArg(arg string) func(*url.Url, string) string {
 		return func(_ *url.Url, h string) string { return strings.Trim(h, ".") }
 	case "empty":
 		return func(_ *url.Url, h string) string { return "" }
+	case "reads":
+		// a hook may look at the URL it is given; it returns the host unchanged
+		return func(u *url.Url, h string) string {
+			if u != nil {
+				_ = u.String()
+				_ = u.Hostname()
+				_ = u.Port()
+			}
+			return h
+		}
 	case "gsb":
 		return func(_ *url.Url, h string) string { return dotsRe.ReplaceAllString(strings.Trim(h, "."), ".") }
 	case "semantic":
@@ -155,8 +171,14 @@ func optionFor(name string) (url.ParserOption, bool) {
 	case "defaultscheme":
 		return canonicalizer.WithDefaultScheme(arg), true
 	case "sort":
-		if arg == "param" {
+		// the documented numeric values ("1 = sort keys ..., 2 = sort key,value") and the named constants
+		switch arg {
+		case "param":
 			return canonicalizer.WithSortQuery(canonicalizer.SortParameter), true
+		case "param#":
+			return canonicalizer.WithSortQuery(2), true
+		case "keys#":
+			return canonicalizer.WithSortQuery(1), true
 		}
 		return canonicalizer.WithSortQuery(canonicalizer.SortKeys), true
 	}
@@ -168,8 +190,47 @@ func optionFor(name string) (url.ParserOption, bool) {
 func buildParser(config []string) url.Parser {
 	var opts []url.ParserOption
 	canon := false
+	numeric, shuffled := false, false
 	for _, name := range config {
+		numeric = numeric || name == "numeric"
+		shuffled = shuffled || name == "shuffled"
+	}
+	if shuffled {
+		// options set independent fields, so their order must not matter: a deterministic
+		// permutation derived from the names themselves
+		config = append([]string(nil), config...)
+		h := uint64(1469598103934665603)
+		for _, name := range config {
+			for i := 0; i < len(name); i++ {
+				h = (h ^ uint64(name[i])) * 1099511628211
+			}
+		}
+		orig := append([]string(nil), config...)
+		for i := len(config) - 1; i > 0; i-- {
+			h = h*6364136223846793005 + 1442695040888963407
+			j := int((h >> 33) % uint64(i+1))
+			config[i], config[j] = config[j], config[i]
+		}
+		// entries with the same key (two default schemes, two sort modes) keep their relative
+		// order: for those the last one wins, by design
+		keyOf := func(name string) string { k, _, _ := strings.Cut(name, ":"); return k }
+		next := map[string][]string{}
+		for _, name := range orig {
+			next[keyOf(name)] = append(next[keyOf(name)], name)
+		}
+		for i, name := range config {
+			k := keyOf(name)
+			config[i] = next[k][0]
+			next[k] = next[k][1:]
+		}
+	}
+	for _, name := range config {
+		if numeric && (name == "sort:keys" || name == "sort:param") {
+			name += "#"
+		}
 		switch name {
+		case "numeric", "shuffled":
+			continue
 		case "canon":
 			canon = true
 			continue
@@ -224,6 +285,12 @@ func randomConfig(r *rand.Rand) []string {
 	if len(cfg) == 0 {
 		cfg = []string{"default"}
 	}
+	if r.IntN(3) == 0 {
+		cfg = append(cfg, "shuffled")
+	}
+	if r.IntN(3) == 0 {
+		cfg = append(cfg, "numeric")
+	}
 	return cfg
 }
 
@@ -256,7 +323,7 @@ func optionForIsCanon(name string) (string, bool) {
 	if name == "canon" || strings.HasPrefix(name, "profile:") {
 		return name, true
 	}
-	if name == "default" {
+	if name == "default" || name == "numeric" || name == "shuffled" {
 		return name, false
 	}
 	_, isCanon := optionFor(name)
